@@ -5,6 +5,7 @@ given" (and raise for arrays).  On the reference tree every truthiness test of a
 is a bool; the rule instance count for None-defaulted parameters is zero, the self-test keeps positive examples."""
 import ast
 
+from .model import AnalysisError
 from .terms import T, walk_terms
 from .walk import cond_polarity, strip_views, norm_stmt, is_call_to, call_parts
 
@@ -460,3 +461,214 @@ def norm_stmt_of(node):
         return ' '.join(ast.unparse(node).split())[:90]
     except Exception:
         return '<expression>'
+
+
+def derived_state_classes(A):
+    """{class: set of fields its __post_init__ reads} for every dataclass that caches quantities computed from its fields at construction"""
+    out = {}
+    for cls in A.prog.all_classes():
+        if not (cls.is_dataclass or any(c.is_dataclass for c in A.prog.mro(cls))):
+            continue
+        post = A.prog.method(cls, '__post_init__')
+        if post is None:
+            continue
+        stored = {x.attr for x in ast.walk(post.node) if isinstance(x, ast.Attribute) and isinstance(x.ctx, ast.Store) and isinstance(x.value, ast.Name) and x.value.id == 'self'}
+        read = {x.attr for x in ast.walk(post.node) if isinstance(x, ast.Attribute) and isinstance(x.ctx, ast.Load) and isinstance(x.value, ast.Name) and x.value.id == 'self'}
+        src = {f for f in read if f in A.prog.all_fields(cls) and f not in stored}
+        if stored and src:
+            out[cls] = src
+    return out
+
+
+def check_frozen_models(run, A, module_prefixes, rule='R-FROZEN'):
+    """A model object that caches quantities computed from its parameters when it is constructed (`__post_init__`: the Gaussians keep the Cholesky factor of
+    the precision and its log-determinant) is a value: a parameter assigned to an existing instance leaves the cached quantities of the OLD parameter in place, and the
+    density is then evaluated with them.  Every store `obj.field = v` outside the constructor where `obj` may be such an instance and `field` is read by its
+    `__post_init__` is reported; the receiver is resolved by the abstract interpreter, an unresolved receiver counts when the field name belongs to such a class only."""
+    derived = derived_state_classes(A)
+    if not derived:
+        raise AnalysisError('no model class with quantities cached at construction found (Gaussian.__post_init__ expected)')
+    by_field = {}
+    for cls, src in derived.items():
+        for f in src:
+            by_field.setdefault(f, set()).add(cls)
+    # classes that have a field of that name and do NOT cache anything computed from it
+    plain = {}
+    for cls in A.prog.all_classes():
+        for f in A.prog.all_fields(cls):
+            if f in by_field and cls not in by_field[f]:
+                plain.setdefault(f, set()).add(cls)
+    n = 0
+    for fn in A.prog.all_funcs():
+        if not any(fn.mod.name == p.rstrip('.') or fn.mod.name.startswith(p) for p in module_prefixes):
+            continue
+        g = A.graphs.get(fn)
+        ctx = None
+        for e in g.events:
+            if e.kind != 'setattr' or e.data['attr'] not in by_field:
+                continue
+            base = e.data['base']
+            is_self = base.op == 'param' and base.args[0] == 'self'
+            if is_self and fn.name in ('__init__', '__post_init__', '__new__'):
+                continue
+            n += 1
+            attr = e.data['attr']
+            classes = None
+            if is_self and fn.cls is not None:
+                classes = {fn.cls} | set(A.prog.subclasses(fn.cls))
+            else:
+                try:
+                    if ctx is None:
+                        ctx = A.ev.entry(fn)
+                    v = A.ev.eval(base, ctx)
+                    if v is not None and v.obj is not None and v.obj.classes:
+                        classes = set(v.obj.classes)
+                except Exception:
+                    classes = None
+            if classes is None:
+                if plain.get(attr):
+                    run.unresolved(rule, f'{fn.qual.split("::")[1]}: `{norm_stmt_of(e.term.node) if getattr(e.term, "node", None) is not None else attr}` does not leave cached quantities stale',
+                                   fn.loc(getattr(e.term, 'node', None)), f'the receiver of the store to `.{attr}` is not resolved')
+                    continue
+                classes = by_field[attr]
+            hit = sorted(c.name for c in classes if c in by_field[attr])
+            if hit:
+                run.violation(rule, f'{fn.qual.split("::")[1]}: parameters of a constructed model are not reassigned', fn.loc(getattr(e.term, 'node', None)),
+                              f'`.{attr}` is assigned on an existing {" / ".join(hit)} instance: `__post_init__` computed '
+                              f'cached quantities from the old `{attr}` (they are not recomputed), the density is evaluated with the old parameter',
+                              construct=f'{rule}::{fn.qual}::{attr}')
+    run.count('classes caching quantities computed from their fields at construction', len(derived))
+    run.count('stores to such fields outside a constructor', n)
+    return n
+
+
+def _dormant(A, fn, guards):
+    """the guarded code runs only when a parameter is switched on that is off by default and that no call in the package switches on: [(param, default)] or None"""
+    from .walk import const_val
+    need = []
+    for c, pol in guards or []:
+        c = strip_views(c)
+        if isinstance(c, T) and c.op == 'param' and pol is True:
+            need.append(c.args[0])
+    return _dormant_params(A, fn, need)
+
+
+def _dormant_params(A, fn, need):
+    from .walk import const_val
+    out = []
+    for p in need:
+        names = [a.arg for a in fn.node.args.posonlyargs + fn.node.args.args]
+        kwonly = [a.arg for a in fn.node.args.kwonlyargs]
+        default = NotImplemented
+        if p in names:
+            i = names.index(p) - (len(names) - len(fn.node.args.defaults))
+            if i >= 0:
+                default = fn.node.args.defaults[i]
+        elif p in kwonly:
+            default = fn.node.args.kw_defaults[kwonly.index(p)]
+        if not (isinstance(default, ast.Constant) and not default.value):
+            continue
+        passed = False
+        for other in A.prog.all_funcs():
+            for e in A.graphs.get(other).events:
+                if e.kind != 'call':
+                    continue
+                nm, pos, kw = call_parts(e.term)
+                if nm != fn.qual:
+                    continue
+                k = names.index(p) - (1 if fn.cls is not None and not fn.is_static else 0) if p in names else None
+                if p in kw or any(x is None for x in kw) or (k is not None and len(pos) > k) or any(getattr(a, 'op', None) == 'star' for a in pos):
+                    passed = True
+        if not passed:
+            out.append((p, default.value))
+    return out or None
+
+
+def _dormant_callers(A, fn, depth=0):
+    """a private helper all of whose calls in the package sit in dormant code (`if use_scipy: ... helper(...)` with the switch a parameter that is never rebound)"""
+    if not fn.name.startswith('_') or fn.name.startswith('__') or depth > 2:
+        return None
+    out = []
+    n_sites = 0
+    for other in A.prog.all_funcs():
+        if other is fn:
+            continue
+        refs = [x for x in ast.walk(other.node) if (isinstance(x, ast.Name) and x.id == fn.name) or (isinstance(x, ast.Attribute) and x.attr == fn.name)]
+        if not refs:
+            continue
+        calls = {id(x.func): x for x in ast.walk(other.node) if isinstance(x, ast.Call)}
+        rebound = {x.id for x in ast.walk(other.node) if isinstance(x, ast.Name) and isinstance(x.ctx, (ast.Store, ast.Del))}
+        for r in refs:
+            if id(r) not in calls:
+                return None                # handed on as a value: callers unknown
+            n_sites += 1
+            call = calls[id(r)]
+            need = []
+
+            def find(stmts, path):
+                for st in stmts:
+                    if any(y is call for y in ast.walk(st)):
+                        if isinstance(st, ast.If) and isinstance(st.test, ast.Name) and st.test.id in other.params and st.test.id not in rebound and \
+                                any(y is call for b in st.body for y in ast.walk(b)):
+                            path.append(st.test.id)
+                        for field in ('body', 'orelse', 'finalbody', 'handlers'):
+                            sub = getattr(st, field, None)
+                            if sub:
+                                find([h for h in sub] if field != 'handlers' else [b for h in sub for b in h.body], path)
+                        return
+            find(other.node.body, need)
+            d = _dormant_params(A, other, need) or _dormant_callers(A, other, depth + 1)
+            if not d:
+                return None
+            out += [x for x in d if x not in out]
+    return out if n_sites else None
+
+
+def check_extent_loops(run, A, module_prefixes, rule='R-ITER'):
+    """`for f in range(X.shape[0])` / `range(len(X))` whose body reads X but never uses `f`, and in which nothing is carried from one iteration to the next:
+    every iteration computes the same thing (`X[-1]` for `X[f]`) - the results for all but one index are copies of one of them.  A loop of this kind that can only be
+    entered through a parameter that is off by default and that no call of the package switches on is counted as dormant and not reported."""
+    n = n_dormant = 0
+    for fn in A.prog.all_funcs():
+        if not any(fn.mod.name == p.rstrip('.') or fn.mod.name.startswith(p) for p in module_prefixes):
+            continue
+        g = A.graphs.get(fn)
+        for L in g.loops:
+            if L.kind != 'for' or not isinstance(L.node, ast.For) or not isinstance(L.node.target, ast.Name) or L.node.target.id.startswith('_'):
+                continue
+            it = L.node.iter
+            if not (isinstance(it, ast.Call) and ((isinstance(it.func, ast.Name) and it.func.id == 'range' and len(it.args) == 1) or
+                                                  (isinstance(it.func, ast.Attribute) and it.func.attr == 'ndindex'))):
+                continue
+            arrs = set()
+            for x in ast.walk(it):
+                if isinstance(x, ast.Attribute) and x.attr == 'shape' and isinstance(x.value, ast.Name):
+                    arrs.add(x.value.id)
+                elif isinstance(x, ast.Call) and isinstance(x.func, ast.Name) and x.func.id == 'len' and len(x.args) == 1 and isinstance(x.args[0], ast.Name):
+                    arrs.add(x.args[0].id)
+            if len(arrs) != 1:
+                continue
+            arr = next(iter(arrs))
+            n += 1
+            var = L.node.target.id
+            body_names = [x for st in L.node.body for x in ast.walk(st) if isinstance(x, ast.Name)]
+            if any(x.id == var for x in body_names) or not any(x.id == arr and isinstance(x.ctx, ast.Load) for x in body_names):
+                continue
+            # anything assigned in the body and read in the body before / without that assignment is carried around the loop
+            carried = {nm for nm in L.mus if nm != var and any(
+                t is L.mus[nm] for e in L.body_events for r in [e.term] + [c for c, _ in (e.guards or [])] if isinstance(r, T) for t in walk_terms(r, into_mu=False))}
+            if carried:
+                continue
+            guards = next((e.guards for e in L.body_events), None)
+            dorm = _dormant(A, fn, guards) or _dormant_callers(A, fn)
+            if dorm:
+                n_dormant += 1
+                run.ok(rule, f'{fn.qual.split("::")[1]}: loop over the extent of `{arr}` (line {L.node.lineno}) [dormant]', fn.loc(L.node),
+                       f'the body never uses `{var}`, but the loop is entered only with {", ".join(f"{p}" for p, _ in dorm)} switched on: off by default and never passed inside the package')
+                continue
+            run.violation(rule, f'{fn.qual.split("::")[1]}: loop over the extent of `{arr}` uses its index', fn.loc(L.node),
+                          f'`for {var} in {norm_stmt_of(it)}` reads `{arr}` in its body but never uses `{var}` and carries nothing from one iteration to the next: '
+                          f'every iteration computes the same result, the entries for all other indices are copies of it', construct=f'{rule}::{fn.qual}::{arr}::{var}')
+    run.count('loops over the extent of an array examined for using their index', n)
+    run.count('such loops that ignore their index but are dormant (entered only through a switch that is off everywhere)', n_dormant)
+    return n
